@@ -4,13 +4,13 @@
 //! logical operators that can be optimized by the Cascades optimizer.
 
 use crate::{
-    schema::{Schema, catalog::StatisticsProvider},
+    schema::{Column, Schema, catalog::StatisticsProvider},
     sql::{
         binder::bounds::*,
         parser::ast::JoinType,
         planner::{PlannerError, PlannerResult},
     },
-    types::ObjectId,
+    types::{DataTypeKind, ObjectId},
 };
 
 use super::logical::*;
@@ -63,17 +63,25 @@ impl<'a> Planner<'a> {
             None => from_group,
         };
 
-        // GROUP BY / aggregates
-        let aggregated = if !select.group_by.is_empty() || self.has_aggregates(&select.columns) {
-            self.build_aggregate(filtered, &select.group_by, &select.columns, &select.schema)?
-        } else {
-            filtered
-        };
+        // GROUP BY / aggregates: a query of its own shape (see build_aggregate_select)
+        let is_aggregate = !select.group_by.is_empty()
+            || self.has_aggregates(&select.columns)
+            || select
+                .having
+                .as_ref()
+                .is_some_and(|h| self.contains_aggregate(h))
+            || select
+                .order_by
+                .iter()
+                .any(|o| self.contains_aggregate(&o.expr));
+        if is_aggregate {
+            return self.build_aggregate_select(filtered, select);
+        }
 
-        // HAVING clause
+        // HAVING clause (without grouping: a second filter)
         let having_applied = match &select.having {
-            Some(pred) => self.build_filter(aggregated, pred.clone())?,
-            None => aggregated,
+            Some(pred) => self.build_filter(filtered, pred.clone())?,
+            None => filtered,
         };
 
         // ORDER BY (must go before the projection since it needs the full input schema)
@@ -107,6 +115,240 @@ impl<'a> Planner<'a> {
         )?;
 
         Ok(limited)
+    }
+
+    /// SELECT with GROUP BY and / or aggregate functions.
+    ///
+    /// The aggregation operator produces the group keys followed by every aggregate that occurs in the
+    /// select list, in HAVING or in ORDER BY. Everything above it — HAVING, ORDER BY, the select list —
+    /// is expressed over that row: a sub-expression equal to a GROUP BY expression reads its key column,
+    /// an aggregate reads its own column, any other column reference is rejected.
+    fn build_aggregate_select(
+        &mut self,
+        input: GroupId,
+        select: &BoundSelect,
+    ) -> PlannerResult<GroupId> {
+        let input_props = self.get_group_properties(input)?;
+
+        let mut found = Vec::new();
+        for item in &select.columns {
+            self.collect_aggregates(&item.expr, 0, &mut found);
+        }
+        if let Some(h) = &select.having {
+            self.collect_aggregates(h, 0, &mut found);
+        }
+        for o in &select.order_by {
+            self.collect_aggregates(&o.expr, 0, &mut found);
+        }
+        let mut aggregates: Vec<AggregateExpr> = Vec::new();
+        for a in found {
+            if !aggregates.contains(&a) {
+                aggregates.push(a);
+            }
+        }
+
+        let aggregate_type = |a: &AggregateExpr| match a.func {
+            AggregateFunction::Count => DataTypeKind::BigInt,
+            AggregateFunction::Sum | AggregateFunction::Avg => DataTypeKind::Double,
+            AggregateFunction::Min | AggregateFunction::Max => a
+                .arg
+                .as_ref()
+                .map(|e| e.data_type())
+                .unwrap_or(DataTypeKind::Null),
+        };
+        let mut cols: Vec<Column> = Vec::new();
+        for (i, k) in select.group_by.iter().enumerate() {
+            cols.push(Column::new_with_defaults(k.data_type(), &format!("key{i}")));
+        }
+        for (i, a) in aggregates.iter().enumerate() {
+            cols.push(Column::new_with_defaults(aggregate_type(a), &format!("agg{i}")));
+        }
+        let agg_schema = Schema::new_table(cols);
+
+        let op = LogicalOperator::Aggregate(AggregateOp::new(
+            select.group_by.clone(),
+            aggregates.clone(),
+            input_props.schema.clone(),
+            agg_schema.clone(),
+        ));
+        let aggregated = self.insert_with_properties(op, vec![input])?;
+
+        let having_applied = match &select.having {
+            Some(pred) => {
+                let pred = Self::over_aggregate(pred, &select.group_by, &aggregates)?;
+                self.build_filter(aggregated, pred)?
+            }
+            None => aggregated,
+        };
+
+        let sorted = if !select.order_by.is_empty() {
+            let order_by = select
+                .order_by
+                .iter()
+                .map(|o| {
+                    Ok(BoundOrderBy {
+                        expr: Self::over_aggregate(&o.expr, &select.group_by, &aggregates)?,
+                        asc: o.asc,
+                        nulls_first: o.nulls_first,
+                    })
+                })
+                .collect::<PlannerResult<Vec<_>>>()?;
+            self.build_sort(having_applied, &order_by, &agg_schema)?
+        } else {
+            having_applied
+        };
+
+        let columns = select
+            .columns
+            .iter()
+            .map(|item| {
+                Ok(BoundSelectItem {
+                    expr: Self::over_aggregate(&item.expr, &select.group_by, &aggregates)?,
+                    output_idx: item.output_idx,
+                    output_name: item.output_name.clone(),
+                })
+            })
+            .collect::<PlannerResult<Vec<_>>>()?;
+        let projected = self.build_project(sorted, &columns, &select.schema)?;
+
+        let distinct_applied = if select.distinct {
+            self.build_distinct(projected, &select.schema)?
+        } else {
+            projected
+        };
+
+        self.apply_limit_offset(
+            distinct_applied,
+            select.limit,
+            select.offset,
+            &select.schema,
+        )
+    }
+
+    /// `expr` re-expressed over the output row of the aggregation operator (group keys, then aggregates).
+    fn over_aggregate(
+        expr: &BoundExpression,
+        group_by: &[BoundExpression],
+        aggregates: &[AggregateExpr],
+    ) -> PlannerResult<BoundExpression> {
+        let column = |idx: usize, data_type: DataTypeKind| {
+            BoundExpression::ColumnBinding(Binding {
+                table_id: None,
+                scope_index: 0,
+                column_idx: idx,
+                data_type,
+            })
+        };
+        if let Some(i) = group_by.iter().position(|g| g == expr) {
+            return Ok(column(i, expr.data_type()));
+        }
+        let rec = |e: &BoundExpression| Self::over_aggregate(e, group_by, aggregates);
+        let rec_box = |e: &BoundExpression| rec(e).map(Box::new);
+        Ok(match expr {
+            BoundExpression::Aggregate {
+                func,
+                arg,
+                distinct,
+                return_type,
+            } => {
+                let key = AggregateExpr {
+                    func: *func,
+                    arg: arg.as_ref().map(|a| *a.clone()),
+                    distinct: *distinct,
+                    output_idx: 0,
+                };
+                match aggregates.iter().position(|a| *a == key) {
+                    Some(j) => column(group_by.len() + j, *return_type),
+                    None => return Err(PlannerError::InvalidState),
+                }
+            }
+            BoundExpression::ColumnBinding(_) => {
+                return Err(PlannerError::Other(
+                    "column must appear in the GROUP BY clause or be used in an aggregate function"
+                        .to_string(),
+                ));
+            }
+            BoundExpression::BinaryOp {
+                left,
+                op,
+                right,
+                result_type,
+            } => BoundExpression::BinaryOp {
+                left: rec_box(left)?,
+                op: *op,
+                right: rec_box(right)?,
+                result_type: *result_type,
+            },
+            BoundExpression::UnaryOp {
+                op,
+                expr,
+                result_type,
+            } => BoundExpression::UnaryOp {
+                op: *op,
+                expr: rec_box(expr)?,
+                result_type: *result_type,
+            },
+            BoundExpression::IsNull { expr, negated } => BoundExpression::IsNull {
+                expr: rec_box(expr)?,
+                negated: *negated,
+            },
+            BoundExpression::Between {
+                expr,
+                low,
+                high,
+                negated,
+            } => BoundExpression::Between {
+                expr: rec_box(expr)?,
+                low: rec_box(low)?,
+                high: rec_box(high)?,
+                negated: *negated,
+            },
+            BoundExpression::InList {
+                expr,
+                list,
+                negated,
+            } => BoundExpression::InList {
+                expr: rec_box(expr)?,
+                list: list.iter().map(rec).collect::<PlannerResult<Vec<_>>>()?,
+                negated: *negated,
+            },
+            BoundExpression::Function {
+                func,
+                args,
+                distinct,
+                return_type,
+            } => BoundExpression::Function {
+                func: func.clone(),
+                args: args.iter().map(rec).collect::<PlannerResult<Vec<_>>>()?,
+                distinct: *distinct,
+                return_type: *return_type,
+            },
+            BoundExpression::Case {
+                operand,
+                when_then,
+                else_expr,
+                result_type,
+            } => BoundExpression::Case {
+                operand: match operand {
+                    Some(o) => Some(rec_box(o)?),
+                    None => None,
+                },
+                when_then: when_then
+                    .iter()
+                    .map(|(c, r)| Ok((rec(c)?, rec(r)?)))
+                    .collect::<PlannerResult<Vec<_>>>()?,
+                else_expr: match else_expr {
+                    Some(e) => Some(rec_box(e)?),
+                    None => None,
+                },
+                result_type: *result_type,
+            },
+            BoundExpression::Literal { .. }
+            | BoundExpression::Subquery { .. }
+            | BoundExpression::Exists { .. }
+            | BoundExpression::InSubquery { .. }
+            | BoundExpression::Star => expr.clone(),
+        })
     }
 
     fn build_table_ref(&mut self, table_ref: &BoundTableRef) -> PlannerResult<GroupId> {
@@ -198,29 +440,6 @@ impl<'a> Planner<'a> {
         let op =
             LogicalOperator::Join(JoinOp::new(join_type, condition, left_schema, right_schema));
         self.insert_with_properties(op, vec![left, right])
-    }
-
-    fn build_aggregate(
-        &mut self,
-        input: GroupId,
-        group_by: &[BoundExpression],
-        columns: &[BoundSelectItem],
-        output_schema: &Schema,
-    ) -> PlannerResult<GroupId> {
-        let input_props = self.get_group_properties(input)?;
-
-        let mut aggregates = Vec::new();
-        for (idx, item) in columns.iter().enumerate() {
-            self.collect_aggregates(&item.expr, idx, &mut aggregates);
-        }
-
-        let op = LogicalOperator::Aggregate(AggregateOp::new(
-            group_by.to_vec(),
-            aggregates,
-            input_props.schema.clone(),
-            output_schema.clone(),
-        ));
-        self.insert_with_properties(op, vec![input])
     }
 
     fn build_sort(
